@@ -213,6 +213,11 @@ def perform(env, target_id, q, world=None, node_id=None):
         return _copy.copy(obj)
     if t == "deepcopy":
         return _copy.deepcopy(obj)
+    if t == "userfunc":
+        from sim.worlds import userobjs
+
+        prof = userobjs.classes()["ProfileStub"](centre=tuple(q["centre"]), scale=float(q["scale"]))
+        return getattr(prof, q["name"])(grid=obj)
     if t == "fn":
         import autoarray as aa
 
@@ -248,6 +253,8 @@ def q_label(q):
     t = q["t"]
     if t in ("prop", "call", "fn"):
         return q["name"]
+    if t == "userfunc":
+        return "userfunc:" + q["name"]
     if t == "path":
         return ".".join(q["names"])
     if t == "op":
@@ -299,6 +306,12 @@ def curated_calls(obj, rng, nodes_by_type):
         if a and m:
             out.append({"t": "call", "name": "convolved_array_with_mask_from", "kw": {"array": {"$node": a}, "mask": {"$node": m}}})
     if tn == "Grid2D":
+        # "programs": a user function evaluated through the grid's over-sampler (seeded centre / scale: different functions
+        # have different per-pixel convergence in the iterative scheme)
+        n_user = 6 if type(getattr(obj, "over_sampling", None)).__name__ == "OverSamplingIterate" else 2
+        for _ in range(n_user):
+            out.append({"t": "userfunc", "name": "image_2d_from", "centre": [rng.choice([0.05, 2.05, -1.1, 0.5]), rng.choice([0.05, -1.95, 0.7])], "scale": rng.choice([0.3, 0.6, 1.5])})
+        out.append({"t": "userfunc", "name": "deflections_yx_2d_from", "centre": [rng.uniform(-1, 1), rng.uniform(-1, 1)], "scale": rng.choice([0.5, 1.0])})
         c = _T(rng.uniform(-2, 2), rng.uniform(-2, 2))
         out.append({"t": "call", "name": "distances_to_coordinate_from", "kw": {"coordinate": c}})
         out.append({"t": "call", "name": "squared_distances_to_coordinate_from", "kw": {"coordinate": c}})
